@@ -158,7 +158,7 @@ func CheckFiles(ms []Member, post124 bool) Report {
 		case !m.Regular:
 			c = Omitted
 		default:
-			r.CountedSize += m.Size
+			r.CountedSize = satAdd(r.CountedSize, m.Size)
 			if m.Size >= 0 && m.Size <= remaining {
 				remaining -= m.Size
 			} else {
@@ -171,7 +171,7 @@ func CheckFiles(ms []Member, post124 bool) Report {
 		r.Classes = append(r.Classes, c)
 		if c == Valid {
 			r.Valid = append(r.Valid, p)
-			r.ValidSize += m.Size
+			r.ValidSize = satAdd(r.ValidSize, m.Size)
 		} else {
 			report(p, c)
 		}
@@ -235,4 +235,15 @@ func CheckZip(prefix string, es []ZipEntry) ZipReport {
 		r.Files = append(r.Files, name)
 	}
 	return r
+}
+
+// satAdd adds non-negative sizes, saturating at the largest int64 (totals are only compared with limits).
+func satAdd(a, b int64) int64 {
+	if b < 0 {
+		return a
+	}
+	if a > 1<<63-1-b {
+		return 1<<63 - 1
+	}
+	return a + b
 }
